@@ -102,11 +102,11 @@ type c19Backend struct {
 	ppCnt  sync.Map // path -> *int64
 }
 
-func (b *c19Backend) Name() string                            { return "verif" }
-func (b *c19Backend) Lang() string                            { return "verif" }
-func (b *c19Backend) Options() []plugin.Option                { return nil }
-func (b *c19Backend) BuiltinPlugins() []*plugin.Desc          { return nil }
-func (b *c19Backend) GetPlugin(d *plugin.Desc) plugin.Plugin  { return nil }
+func (b *c19Backend) Name() string                           { return "verif" }
+func (b *c19Backend) Lang() string                           { return "verif" }
+func (b *c19Backend) Options() []plugin.Option               { return nil }
+func (b *c19Backend) BuiltinPlugins() []*plugin.Desc         { return nil }
+func (b *c19Backend) GetPlugin(d *plugin.Desc) plugin.Plugin { return nil }
 func (b *c19Backend) Generate(req *plugin.Request, log backend.LogFunc) *plugin.Response {
 	return &plugin.Response{Contents: b.files}
 }
